@@ -82,9 +82,13 @@ def copy_executable(src, dst, mode):
     os.chmod(dst, mode)
 
 
+DEFAULT_OUT_DIR = "monorail-out"
+CUSTOM_OUT_DIR = ".cache/mr out"
+
+
 class Fixture:
     def __init__(self, bins, targets, sequences=None, max_retained_runs=None, extra_cfg=None, gitignore=None, lock_host=None,
-                 via=None, ignore_via=None, sepgit=None, root_dir=None):
+                 via=None, ignore_via=None, sepgit=None, root_dir=None, out_dir=None):
         """targets: list of dicts {path, uses?, ignores?, commands?, argmaps?}
         via: how the configuration file is named on the command line -- "plain" (canonical path), "link" (through a
         symbolic link to the repository), "dotdot" (a path with a `..` component).  monorail takes its work path from
@@ -124,6 +128,17 @@ class Fixture:
         else:
             self.wp = self.repo
         self.cfg_arg = os.path.join(self.wp, "Monorail.json")     # the -f argument; cfg_path stays the physical file
+        # where monorail keeps its own state: the default `monorail-out`, or (every fourth repository) a configured
+        # `out_dir` two levels down with a space in its name -- no property depends on what that directory is called
+        if out_dir is None:
+            if "out_dir" in self.extra_cfg:
+                out_dir = self.extra_cfg["out_dir"]
+            else:
+                hv3 = hashlib.sha256(json.dumps([targets, sequences, max_retained_runs], sort_keys=True, default=str).encode()).digest()[3]
+                out_dir = CUSTOM_OUT_DIR if hv3 % 4 == 1 else DEFAULT_OUT_DIR
+                if os.environ.get("VERIF_OUTDIR"):
+                    out_dir = CUSTOM_OUT_DIR if os.environ["VERIF_OUTDIR"] == "custom" else DEFAULT_OUT_DIR
+        self.out_dir = out_dir
         self.sepgit = sepgit
         # where the caller's ignore patterns live: git's three standard exclude sources name the same set of paths
         if ignore_via is None:
@@ -149,7 +164,8 @@ class Fixture:
             with open(os.path.join(self.repo, t["path"], "src.txt"), "w") as f:
                 f.write("src of %s\n" % t["path"])
         with open(os.path.join(self.repo, ".gitignore"), "w") as f:
-            f.write("monorail-out/\n" + ((gitignore or "") if self.ignore_via == "tree" else ""))
+            f.write("monorail-out/\n" + ("" if self.out_dir == DEFAULT_OUT_DIR else "/" + self.out_dir.strip("/") + "/\n")
+                    + ((gitignore or "") if self.ignore_via == "tree" else ""))
         self.write_config()
 
     # ------------------------------------------------------------------ config / git
@@ -164,6 +180,8 @@ class Fixture:
             cfg["sequences"] = self.sequences
         if self.max_retained_runs is not None:
             cfg["max_retained_runs"] = self.max_retained_runs
+        if self.out_dir != DEFAULT_OUT_DIR:
+            cfg["out_dir"] = self.out_dir
         cfg.update(self.extra_cfg)
         return cfg
 
@@ -368,7 +386,7 @@ class Fixture:
         return None, None
 
     def out_path(self, *parts):
-        return os.path.join(self.repo, "monorail-out", *parts)
+        return os.path.join(self.repo, self.out_dir, *parts)
 
     def cleanup(self):
         for p in self.procs:
